@@ -372,7 +372,7 @@ class C20(Property):
                   "(norm AST); comments kept in order; byte idempotence; format.File = format.Source; no panic/hang on mutated "
                   "invalid sources; for comment-free programs with struct declarations the formatted TEXT = the text model of "
                   "the Format methods and the tabwriter, character for character). The lexical tables are dumped by the "
-                  "compiled token/scanner packages on every run and GenProofs.v proves that the model scanner answers 4416 "
+                  "compiled token/scanner packages on every run and GenProofs.v proves that the model scanner answers 4442 "
                   "enumerated probes as scanner.go does. checked_case_satisfies_property ties the boolean check to the model "
                   "statement; the model scanner is proved total without help from its fuel.")
     level_note = ("partial: proof of the language model + translation validation of the Go code. Comments are outside the "
